@@ -369,6 +369,7 @@ func getReal(x postscript.Object) (float64, bool) {
 
 var dateFormats = []string{
 	"2006-01-02 15:04:05 -0700 MST",
+	"2006-01-02 15:04:05 -0700 -0700", // zones without a name are written as their offset
 	"Mon Jan 2 15:04:05 2006",
 	"Mon, 2 Jan 2006 15:04:05",
 	"Mon Jan 2 2006",
